@@ -116,6 +116,47 @@ def typed_collection_part(ctx):
     ctx.cov(typed_collection_cases=len(scs), typed_collection_accepted=n_acc)
 
 
+def function_result_part(ctx):
+    """results of built-in functions as workflow outputs and step inputs: the schema inferred for the expression is the
+    function's declared result type, so a result outside that type surfaces as an internal 'bug:' error of an accepted
+    workflow (extreme, tiny, negative and non-integral numbers; the oracle is the property itself)"""
+    import gen
+    import vlib
+    from vlib import lit, ref, tmap, fexpr
+    exprs = ['floatToString($.input.ratio)', 'intToString($.input.count)', 'boolToString($.input.flag)', 'floatToFormattedString($.input.ratio, "e", 3)',
+             'floatToFormattedString($.input.ratio, "f", -1)', 'intToFloat($.input.count)', 'floatToInt($.input.ratio)', 'toUpper($.input.label)',
+             'splitString($.input.label, "")', 'stringToInt(intToString($.input.count))', 'stringToFloat(floatToString($.input.ratio))',
+             'ceil($.input.ratio)', 'round($.input.ratio)', 'abs($.input.ratio)']
+    ratios = [1000000.0, 123456789.25, 0.00001, -2.5e-7, 1.5, -0.0, 1e21] if not ctx.quick else [1000000.0, 0.00001, 1.5, 1e21]
+    scs, names = [], []
+    for r in ratios:
+        inp = {'color': 'green', 'label': 'Hello', 'level': 2, 'count': 9007199254740993 if r > 1e9 else -7, 'ratio': r, 'flag': r > 1}
+        wf = {'input_schema': TYPED_INPUT,
+              'steps': {'s': {'kind': 'plugin', 'pstep': 'work', 'fields': {'input': tmap({'id': lit('s'), 'deps': tmap({'f%d' % k: fexpr(e, ['input']) for k, e in enumerate(exprs)})})}}},
+              'outputs': {'success': tmap(dict({'t': ref('steps.s.outputs.success.tok')}, **{'f%d' % k: fexpr(e, ['input']) for k, e in enumerate(exprs)}))}}
+        scs.append(gen.make_scenario(wf, {'s': {'exec': {'out': 'success'}}}, inp, None, timeout_ms=15000))
+        names.append('function results for ratio=%r' % r)
+    res = vlib.run_scenarios(ctx.binary(), scs, ctx.work, prefix='f')
+    for n, r in zip(names, res):
+        rr = r['result']
+        rp = {'kind': 'scenario-raw', 'how': 'verifh run <scenario>', 'scenario': r['scenario'], 'case': n}
+        if rr is None:
+            import engine_check
+            if engine_check.engine_panic(r['stderr'] or ''):
+                ctx.add('C07', 'process-crashed-during-run', engine_check.first_panic_line(r['stderr']), rp)
+            else:
+                ctx.inconclusive('harness died: ' + (r['stderr'] or '')[-200:])
+            continue
+        if rr.get('prepare_err'):
+            ctx.inconclusive('the function-result workflow was refused: ' + rr['prepare_err'][:200])
+            continue
+        run = rr['runs'][0]
+        if run['is_err'] and 'bug:' in run['err']:
+            ctx.add('C08', 'internal-bug-error-returned', '%s: %s' % (n, run['err'][:160]), rp)
+    ctx.cov(function_result_cases=len(scs))
+
+
 def run(ctx):
     typed_collection_part(ctx)
+    function_result_part(ctx)
     family.run_family_check(ctx, 'C08', n_quick=40, n_thorough=400, extra_items=loop_items(ctx))
